@@ -20,6 +20,7 @@ def _counters(triples):
         "identity_ok": sum(1 for t in triples if t[1].endswith("|ID-OK")),
         "identity_fail": sum(1 for t in triples if t[1].endswith("|ID-FAIL")),
         "model_identity_ok": sum(1 for t in triples if t[2].endswith("|ID-OK")),
+        "order_class_requests": sum(1 for t in triples if t[0].startswith("C25 ord ")),
     }
 
 
@@ -29,21 +30,27 @@ CFG = {
                   "JqCodec): jq's order is a total preorder on duplicate-free values for every lawful number carrier; sort = "
                   "ordered permutation; unique = strictly increasing set of representatives; getpath_defined / "
                   "setpath_getpath_id / getpath_setpath / setpath_frame for every p in paths v; to_entries|from_entries on "
-                  "duplicate-free objects; @base64|@base64d and @uri|decode on all byte strings. Not proved (covered by the "
-                  "tie only): tojson|fromjson, tostream|fromstream, cmp=eq iff ==. Tie: all identities are evaluated by both "
+                  "duplicate-free objects; @base64|@base64d and @uri|decode on all byte strings. tostream|fromstream; cmp = eq iff ==. Not proved (covered by the "
+                  "tie only): tojson|fromjson. Tie: all identities are evaluated by both "
                   "Rust evaluators on generated values and every path, with an in-process verdict, and diffed with the model",
     "level_note": "numbers enter through an abstract carrier; `_partial` theorems name what is missing; @uri decode is "
                   "not checked (`@urid` is a succinctly extension without jq oracle)",
     "technique": "Lean 4 proof over the model + differential correspondence with in-process identity oracle",
     "variants": [{"features": []}],
     "lean_modules": ["SuccinctlyVerif.Props.C25"],
-    "lean_files": ["SuccinctlyVerif/Props/C25.lean", "SuccinctlyVerif/Proof/JqOrder.lean", "SuccinctlyVerif/Proof/JqCodec.lean", "SuccinctlyVerif/Proof/JqPaths.lean", "SuccinctlyVerif/Model/JqValue.lean", "SuccinctlyVerif/Model/Jq.lean"],
+    "lean_files": ["SuccinctlyVerif/Props/C25.lean", "SuccinctlyVerif/Proof/JqOrder.lean", "SuccinctlyVerif/Proof/JqCodec.lean", "SuccinctlyVerif/Proof/JqPaths.lean", "SuccinctlyVerif/Proof/JqEqv.lean", "SuccinctlyVerif/Proof/JqStream.lean", "SuccinctlyVerif/Model/JqValue.lean", "SuccinctlyVerif/Model/Jq.lean"],
     "generated": [],
     "verdict": _verdict,
     "counters": _counters,
     "nontrivial": lambda req, out: req.split(" ")[3][:2] in ("5b", "7b"),
-    "rule": "request = one generated duplicate-free JSON value (all identities evaluated on it and on each of its paths); "
-            "non-trivial = the value is a container (request longer than the bare identity list)",
+    "rule": "request = one generated duplicate-free JSON value (all identities evaluated on it and on each of its paths), or "
+            "(`ord`) one array of objects over a single key set with permuted insertion orders, differing at two or more "
+            "keys in opposite directions (also nested); non-trivial = the value is a container",
     "explanation": "10 identity programs x generated duplicate-free values (nested, all scalar kinds, non-ASCII, edge numbers) "
-                   "through jq::eval and eval_generic (must agree and each print `true`: ID-OK) and through the Lean model",
+                   "through jq::eval and eval_generic (must agree and each print `true`: ID-OK) and through the Lean model; "
+                   "`ord`: 19 order-sensitive programs (sort, sort_by(.), unique, unique_by(.), min, max, min_by/max_by, "
+                   "group_by(.), reverse|sort, < > <= >= on both orders of each pair) on same-key-set object families; the "
+                   "in-process verdict checks sortedness / strictness / extremality / every pairwise < and > against an "
+                   "independent transcription of the model's JV.cmp (never the implementation's comparator), and every "
+                   "run line is diffed with the model",
 }
